@@ -29,6 +29,7 @@ func checkC20(c *Ctx) {
 		copies := c20Clones(c, p)
 		c20Budget(c, p, copies)
 		c20Units(c, p)
+		c20Tables(c, p)
 	}
 	c.Floor["R20.1"] = 12
 	c.Floor["R20.2"] = 7
@@ -680,4 +681,39 @@ func sameCell(a, b ssa.Value, depth int) bool {
 		return ok && x.Index == y.Index && sameCell(x.X, y.X, depth+1)
 	}
 	return false
+}
+
+// c20Tables: a package-level table of the duration helpers indexed at a computed position (a cache of pre-rendered
+// texts, a unit table) is indexed inside its bounds for every duration: the position has a derivable upper bound
+// below the table's length and is shown non-negative (durations are signed: -3s / time.Second is -3).
+func c20Tables(c *Ctx, p *Prog) {
+	r := c.R
+	n := 0
+	for _, fn := range p.RepoFuncs() {
+		if fn.Pkg != p.Times {
+			continue
+		}
+		for _, s := range arrayBoundSites(fn) {
+			g, isG := s.x.(*ssa.Global)
+			if !isG {
+				continue // local scratch arrays are decided by the interval analysis (R20.1 budget)
+			}
+			var idx ssa.Value
+			switch i := s.in.(type) {
+			case *ssa.IndexAddr:
+				idx = i.Index
+			case *ssa.Index:
+				idx = i.Index
+			}
+			n++
+			up, why, have := idxUpper(idx, s.in.Block())
+			nonNeg := idxNonNeg(idx, s.in.Block(), 0)
+			key := fmt.Sprintf("table:%s[%s]", shortName(fn), nm(g))
+			r.Check(have && up < s.need && nonNeg, "R20.1", key, p.Pos(instrPos(s.in)), fmt.Sprintf("position in 0..%d (%s) of %d entries", up, why, s.need),
+				fmt.Sprintf("the table %s has %d entries; the position is bounded above: %v (%d, %s), shown non-negative: %v - for some duration (a negative one, if the sign is not handled first) the formatter panics with an index out of range instead of being total", nm(g), s.need, have, up, why, nonNeg))
+		}
+	}
+	if n == 0 {
+		r.Ok("R20.1", "table:none", "-", "no package-level table of the duration helpers is indexed at a computed position")
+	}
 }
